@@ -35,6 +35,7 @@ import Proofs.NNLSRecon
 import Proofs.NNLSTerm
 import Proofs.NNLSDescent
 import Proofs.NNLSCount
+import Proofs.NNLSWTildeMapped
 import Mathlib.Algebra.Order.Field.Rat
 import Mathlib.Tactic.NormNum
 import Mathlib.Tactic.IntervalCases
@@ -499,6 +500,49 @@ theorem e_mapped_data_sum (m : ℕ) (hm : 0 < m) (Bs : List (List (List α))) (s
   exact ⟨htot, by rw [htot, hstack_row_dot m Bs ss hsh i hi]⟩
 
 end e
+
+/-! ### e (w-tilde formalism): `InversionImagingWTilde.mapped_reconstructed_data_dict`
+
+The w-tilde route maps a mapper's slice of `s` through the sparse unique-mapping tables
+(`mapped_reconstructed_data_via_image_to_pix_unique_from`) and blurs the image with
+`convolve_image_no_blurring`; function lists use their operated matrix. For every mask / odd kernel
+(any `cv`), every table that `Encodes` a mapping matrix `M` (C06.e: `Proofs/WTildeMappedC06.lean` shows
+`Impl.uniqueFrom` produces such tables), every mix and order of objects and every reconstruction, this
+equals `B_obj · s_obj` with `B_obj = convolveMatrix M` — the value the mapping formalism returns — and
+the per-object images sum to `hstack(B) · s`. -/
+section e_wtilde
+variable {α : Type} [Field α] [LinearOrder α] [IsStrictOrderedRing α]
+
+theorem e_w_tilde_mapped_data_each (cv : Impl.Convolver α) (m : ℕ) (hm : 0 < m)
+    (objs : List (WTildeMapped.LinObj α)) (Bs : List (List (List α))) (ss : List (List α))
+    (hB : List.Forall₂ (WTildeMapped.IsBlurredOf cv m) objs Bs) (hsh : ShapesOK m Bs ss) :
+    WTildeMapped.mappedDataDict (Impl.convolveNoBlurring cv) objs ss.flatten = List.zipWith matVec Bs ss
+    ∧ WTildeMapped.mappedDataDict (Impl.convolveNoBlurring cv) objs ss.flatten
+        = Impl.mappedDataDict Bs ss.flatten :=
+  WTildeMapped.e_w_tilde_mapped_data_each cv m hm objs Bs ss hB hsh
+
+theorem e_w_tilde_mapped_data_sum (cv : Impl.Convolver α) (m : ℕ) (hm : 0 < m)
+    (objs : List (WTildeMapped.LinObj α)) (Bs : List (List (List α))) (ss : List (List α))
+    (hB : List.Forall₂ (WTildeMapped.IsBlurredOf cv m) objs Bs) (hsh : ShapesOK m Bs ss) :
+    (Impl.mappedData m
+        (WTildeMapped.mappedDataDict (Impl.convolveNoBlurring cv) objs ss.flatten)).length = m
+    ∧ ∀ i, i < m →
+        vget (Impl.mappedData m
+            (WTildeMapped.mappedDataDict (Impl.convolveNoBlurring cv) objs ss.flatten)) i
+          = (List.zipWith (fun B sk => vget (matVec B sk) i) Bs ss).sum
+        ∧ vget (Impl.mappedData m
+            (WTildeMapped.mappedDataDict (Impl.convolveNoBlurring cv) objs ss.flatten)) i
+          = vget (matVec (Impl.hstack m Bs) ss.flatten) i :=
+  WTildeMapped.e_w_tilde_mapped_data_sum cv m hm objs Bs ss hB hsh
+
+theorem e_w_tilde_mapper_route [DecidableEq α] (cv : Impl.Convolver α) (n P : ℕ)
+    (d2p : List (List Int)) (dw : List (List α)) (len : List ℕ) (M : List (List α))
+    (hU : WTildeMapped.Encodes d2p dw len n P M) (s : List α) (hs : s.length = P) :
+    Impl.convolveNoBlurring cv (WTildeMapped.mappedViaUnique d2p dw len s)
+      = matVec (Impl.convolveMatrix cv n P M) s :=
+  WTildeMapped.mapper_route_eq cv n P d2p dw len M hU s hs
+
+end e_wtilde
 
 /-! ### the Cholesky bookkeeping of `fnnls_cholesky` (util/cholesky_funcs.py), with only `sqrt` assumed -/
 
